@@ -65,6 +65,23 @@ def countersBound (d : Data) : Bool :=
   (sgIds d).all (· ≤ d.maxShardGroupID) && (shardIds d).all (· ≤ d.maxShardID) && (igIds d).all (· ≤ d.maxIndexGroupID) &&
   (indexIds d).all (· ≤ d.maxIndexID) && (mstIds d).all (· < d.maxMstID) && (nodeIds d).all (· ≤ d.maxNodeID)
 
+/-! ### users and partition views (proved as unconditional invariants in OG/C16/UsersPt.lean) -/
+
+def usersOK (d : Data) : Bool :=
+  pairwiseB (fun a b => a.name != b.name) d.users &&
+  decide ((d.users.filter (·.admin)).length ≤ 1) &&
+  d.users.all fun u => u.privileges.all fun p => (alFind p.1 d.databases).isSome
+
+def isWriterNode (n : Node) : Bool := isWriter n.role
+
+def ptNumbered : Nat → List Pt → Bool
+  | _, [] => true
+  | i, p :: rest => p.ptId == i && ptNumbered (i + 1) rest
+
+def ptViewOK (d : Data) : Bool :=
+  decide (d.ptNumPerNode * (d.dataNodes.filter isWriterNode).length ≤ d.clusterPtNum) &&
+  d.ptView.all fun v => v.2.length == d.clusterPtNum && ptNumbered 0 v.2 && v.2.all fun p => (nodeIds d).contains p.owner
+
 def groupsSorted (d : Data) : Bool := (allRPs d).all sortedRP
 def groupsDisjoint (d : Data) : Bool := (allRPs d).all disjointRP
 def groupsAligned (d : Data) : Bool := (allRPs d).all alignedRP
@@ -76,7 +93,8 @@ def wfViolations (d : Data) : List String :=
   (if groupsSorted d then [] else ["sorted"]) ++ (if groupsDisjoint d then [] else ["disjoint"]) ++
   (if groupsAligned d then [] else ["aligned"]) ++ (if idsUnique d then [] else ["ids"]) ++
   (if countersBound d then [] else ["counters"]) ++ (if refsValid d then [] else ["refs"]) ++
-  (if defaultsExist d then [] else ["default"])
+  (if defaultsExist d then [] else ["default"]) ++
+  (if usersOK d then [] else ["users"]) ++ (if ptViewOK d then [] else ["ptview"])
 
 def WF (d : Data) : Prop :=
   groupsSorted d = true ∧ groupsDisjoint d = true ∧ groupsAligned d = true ∧ idsUnique d = true ∧
